@@ -38,7 +38,9 @@ theorem arc_conforming (p : Profile) (a : BinArchive) (hle : a.endian = .little)
   have hnames : (recsOfFiles a ia 0 files).map (·.1) = files.map (·.1) := by
     have := congrArg (List.map (·.1)) r3
     simpa [List.map_map, Function.comp_def] using this
-  rw [extract_ok a (padding padded) ia _ 0 [] r2 (by simpa [hnames, DistinctNames] using hN), r3]
+  have hp60 : padding padded ≤ 0x60 := by rw [← hpad]; exact padOf_le w
+  rw [extract_ok a (padding padded) ia hp60 _ 0 [] r2 (recsAt_bounded a ia _ 0 r1)
+    (by simpa [hnames, DistinctNames] using hN), r3]
   simp
 
 /-- The same for an image: `hC01` is property C01's conclusion for this image (the bin-archive
@@ -98,8 +100,9 @@ theorem arc_out_of_range (p : Profile) (a : BinArchive) (hle : a.endian = .littl
       rs[j].2.1 = 0 ∨ rs[j].2.2 + padOf w + rs[j].2.1 ≤ a.data.length)
     (hleave : RangeLeaves (contentOf a) (rs[i].2.2 + padOf w) rs[i].2.1) :
     fromArchive p a = .err .OutOfBounds := by
-  rw [fromArchive_records p a rs ⟨hle, hsf, hcount, hinfo, hw, hn⟩
-    (recsAt_of_forall a ia rs 0 (by simpa using hrs))]
+  have hrs' := recsAt_of_forall a ia rs 0 (by simpa using hrs)
+  have hbd := recsAt_bounded a ia rs 0 hrs'
+  rw [fromArchive_records p a rs ⟨hle, hsf, hcount, hinfo, hw, hn⟩ hrs']
   have hsplit : rs = rs.take i ++ rs[i] :: rs.drop (i + 1) := by
     rw [← List.drop_eq_getElem_cons hi, List.take_append_drop]
   have hpre : ∀ r' ∈ rs.take i, InRange a (padOf w) r' := by
@@ -108,8 +111,9 @@ theorem arc_out_of_range (p : Profile) (a : BinArchive) (hle : a.endian = .littl
     have hj' : j < i := by simp at hj; omega
     rw [List.getElem_take]
     exact hbefore j hj'
+  have hpreb : ∀ r' ∈ rs.take i, Bounded r' := fun r' hr' => hbd r' (List.mem_of_mem_take hr')
   rw [hsplit]
-  exact extract_err a (padOf w) ia _ 0 [] _ _ hpre hleave.1 hleave.2
+  exact extract_err a (padOf w) ia (padOf_le w) _ 0 [] _ _ hpre hpreb hleave.1 hleave.2
 
 /-- **Totality**: extraction never panics — for every archive, every image and both profiles. -/
 theorem arc_total (p : Profile) (a : BinArchive) : fromArchive p a ≠ .panic :=
